@@ -464,7 +464,7 @@ def measure_model(out, tier, seed, fams, sim_count, tag, dims=(1, 2, 3)):
     with open(inf, "w") as f:
         for i in inputs:
             f.write(json.dumps(i) + "\n")
-    runs = [(name, FAMILIES[name], None) for name in fams]
+    runs = [(name, FAMILIES[name], None) if isinstance(name, str) else (name[0], name[1], None) for name in fams]
     if sim_count:
         runs.append(("sim", fam((1, 1, 1), 3, False, 1, 1, order="fixed", fix=False, view=False), inf))
     states = 0
@@ -474,7 +474,8 @@ def measure_model(out, tier, seed, fams, sim_count, tag, dims=(1, 2, 3)):
             consts = dict(Inputs=("<-", "MCInputs"), Ties="keep", Order=spec["order"], LGx=spec["G"][0], LGy=spec["G"][1], LGz=spec["G"][2],
                           LDim=spec["dim"], LPer=spec["per"], LNmin=spec["nmin"], LNmax=spec["nmax"], LFix=spec["fix"],
                           UseFile=infile is not None, Emit=True)
-            write_cfg(cfg, constants=consts, invariants=["TypeOK", "Closed", "Oriented", "MeasureOK", "EmitVol"])
+            write_cfg(cfg, constants=consts, invariants=["TypeOK", "Closed", "Oriented", "MeasureOK", "EmitVol"],
+                      view="AbstractView" if (spec["view"] and infile is None) else None)
             r = run_tlc("mc/MCVMeasure.tla", cfg, env_extra={"VV_INPUTS": infile or "/dev/null"}, timeout=3000,
                         tags=("VOL",), tag_sink={"VOL": vf})
             if r.violation:
@@ -515,8 +516,8 @@ def check_C02(tier, seed):
         "every embedded lattice tessellation (1D/2D/3D, periodic and reflective, anisotropic boxes, offsets up to 1e6, "
         "scales 1e-6..2e14): every cell measure > 0 and the sum equals the box measure; distinct = (input, embedding, cell) "
         "triples compared, all of them non-trivial (a wrong cell changes the sum)", with_tess=True)
-    ng = measure_model(out, tier, seed, ["R3s", "P3a", "P2a", "D2a", "D1a", "D1p"] if tier == "quick" else
-                       ["R3a", "R3x", "P3a", "P3b", "P2a", "P2x", "D2a", "D2x", "D1a", "D1p"], 12 if tier == "quick" else 120, "C02")
+    ng = measure_model(out, tier, seed, ["R3s", "P3a", ("P2s", dict(FAMILIES["P2a"], nmax=2)), ("D2s", dict(FAMILIES["D2a"], nmax=2)), "D1a", "D1p"]
+                       if tier == "quick" else ["R3a", "R3x", "P3a", "P3b", "P2a", "P2x", "D2a", "D2x", "D1a", "D1p"], 8 if tier == "quick" else 120, "C02")
     out.coverage["rule"] += (" || design level (VMeasure + VTileTrace): the EXACT volumes of the cells the specification builds (rational, "
                              "evaluated by TLC modulo three primes) sum to the measure of the box for each of %d lattice inputs, and "
                              "do not depend on the order in which equidistant candidates are taken" % ng)
